@@ -6,6 +6,7 @@ import (
 	"bytes"
 	"encoding/json"
 	"fmt"
+	"math"
 	"math/rand"
 	"net/http"
 	"net/http/httptest"
@@ -510,6 +511,7 @@ func checkC14(c *Ctx) {
 
 	c14Renumber(c)
 	c14Transport(c)
+	c14GetterValues(c)
 	c14ConcurrentJSON(c)
 	// ---------------- corpus: explicit id then automatic id (recorded behaviour: the automatic one is rejected)
 	corpus := []idPlan{
@@ -982,5 +984,35 @@ func c14Transport(c *Ctx) {
 			}
 		}
 		c.Count(fmt.Sprint(id, kinds, explicit), true, "stream:transport-ids")
+	}
+}
+
+// c14GetterValues: the attribute database stays well-formed JSON whatever a value getter of the application returns at
+// the moment it is encoded — a sensor read that failed (NaN, ±Inf), a value of another type. Both through the handler of
+// GET /accessories and through json.Marshal of the container.
+func c14GetterValues(c *Ctx) {
+	for i, bad := range []interface{}{math.NaN(), math.Inf(1), math.Inf(-1), "n/a", nil, []interface{}{1.0}} {
+		id := fmt.Sprintf("getter-values#%d", i)
+		if c.Skip(id) {
+			continue
+		}
+		acc := accessory.NewTemperatureSensor(accessory.Info{Name: "T"}, 20, 0, 100, 0.1)
+		acc.TempSensor.CurrentTemperature.OnValueGet(func() interface{} { return bad })
+		f, addr, err := verifiedFixture(c, []*accessory.Accessory{acc.Accessory})
+		if err != nil {
+			c.Violate("fixture cannot be built", id, nil, "fixture", err.Error())
+			continue
+		}
+		in := map[string]interface{}{"getter_of_CurrentTemperature_returns": fmt.Sprintf("%T %v", bad, bad)}
+		for _, target := range []string{"/accessories", fmt.Sprintf("/characteristics?id=%d.%d", acc.Accessory.ID, acc.TempSensor.CurrentTemperature.ID), "/accessories"} {
+			st, body, _, pm := f.Do(addr, "GET", target, "", nil)
+			var any interface{}
+			if pm != "" || (st != 200 && st != 207) || json.Unmarshal(bytes.TrimSpace(body), &any) != nil {
+				c.Violate("the attribute database is not served as well-formed JSON (a value getter returned something that is not a valid value)", id, in, "200 + JSON", fmt.Sprint(target, ": ", st, " ", trunc(string(body), 100), pm))
+				break
+			}
+		}
+		c.Count(id, true, "stream:getter-values")
+		f.Close()
 	}
 }
